@@ -179,19 +179,6 @@ func (t *Tree) Hash() []byte {
 		return nil
 	}
 	hash := t.root.Hash(t)
-	// 更新memTree
-	if t.config != nil && t.config.EnableMemTree && memTree != nil && tkCloseCache != nil {
-		for k := range t.obsoleteNode {
-			memTree.Delete(k)
-		}
-		for k, v := range t.updateNode {
-			memTree.Add(k, v)
-		}
-		for k, v := range t.tkCloseNode {
-			tkCloseCache.Add(k, v)
-		}
-		treelog.Debug("Tree.Hash", "memTree len", memTree.Len(), "tkCloseCache len", tkCloseCache.Len(), "tree height", t.blockHeight)
-	}
 	return hash
 }
 
@@ -223,6 +210,19 @@ func (t *Tree) Save() []byte {
 		treelog.Debug("tree.commit", "cost", types.Since(beg))
 		if err != nil {
 			return nil
+		}
+		// 更新memTree
+		if t.config != nil && t.config.EnableMemTree && memTree != nil && tkCloseCache != nil {
+			for k := range t.obsoleteNode {
+				memTree.Delete(k)
+			}
+			for k, v := range t.updateNode {
+				memTree.Add(k, v)
+			}
+			for k, v := range t.tkCloseNode {
+				tkCloseCache.Add(k, v)
+			}
+			treelog.Debug("Tree.Hash", "memTree len", memTree.Len(), "tkCloseCache len", tkCloseCache.Len(), "tree height", t.blockHeight)
 		}
 		// 该线程应只允许一个
 		if t.config != nil && t.config.EnableMavlPrune && !isPruning() &&
